@@ -25,7 +25,11 @@ class Boom(Exception):
     pass
 
 
-def make_plugin(kind, hooks, idx, log, raise_at=None):
+EXC_CLASSES = {"Boom": None, "AttributeError": AttributeError, "TypeError": TypeError, "KeyError": KeyError,
+               "ValueError": ValueError, "RuntimeError": RuntimeError}
+
+
+def make_plugin(kind, hooks, idx, log, raise_at=None, exc="Boom"):
     import suds.plugin
     base = {"message": suds.plugin.MessagePlugin, "document": suds.plugin.DocumentPlugin,
             "init": suds.plugin.InitPlugin}[kind]
@@ -35,7 +39,7 @@ def make_plugin(kind, hooks, idx, log, raise_at=None):
         def fn(self, context):
             log.append((idx, hook, getattr(context, "url", None)))
             if raise_at == hook:
-                raise Boom("%d:%s" % (idx, hook))
+                raise (EXC_CLASSES.get(exc) or Boom)("BOOM %d:%s" % (idx, hook))
             if kind == "message":
                 if hook == "marshalled":
                     context.envelope.set("mk%d" % idx, str(len([l for l in log if l[1] == "marshalled"])))
@@ -104,12 +108,13 @@ def run(ctx):
             retxml = rng.random() < 0.3
             faults = rng.random() < 0.7
             raise_at = None
-            if rng.random() < 0.12 and spec:
+            if rng.random() < 0.2 and spec:
                 ri = rng.randrange(len(spec))
                 if spec[ri][1]:
-                    raise_at = (ri, rng.choice(spec[ri][1]))
+                    raise_at = (ri, rng.choice(spec[ri][1]), rng.choice(sorted(EXC_CLASSES)))
             log = []
-            plugins = [make_plugin(k, hs, i, log, raise_at[1] if raise_at and raise_at[0] == i else None)
+            plugins = [make_plugin(k, hs, i, log, raise_at[1] if raise_at and raise_at[0] == i else None,
+                                   raise_at[2] if raise_at else "Boom")
                        for i, (k, hs) in enumerate(spec)]
             data = c09.body_bytes(body, "wrapped")
             te = None
@@ -127,12 +132,15 @@ def run(ctx):
                 try:
                     r = c.service.f("x")
                     outcome = ("ret", r)
-                except Boom as e:
-                    outcome = ("boom", str(e))
                 except Exception as e:
-                    outcome = ("exc", type(e).__name__)
-            except Boom as e:
-                outcome = ("ctor-boom", str(e))
+                    if "BOOM " in str(e):
+                        outcome = ("boom", str(e).strip("'").replace("BOOM ", ""), type(e).__name__)
+                    else:
+                        outcome = ("exc", type(e).__name__)
+            except Exception as e:
+                if "BOOM " not in str(e):
+                    raise
+                outcome = ("ctor-boom", str(e).strip("'").replace("BOOM ", ""), type(e).__name__)
                 ctor_log_len = len(log)
             meta = {"plugins": [{"kind": KIND_CLASS[k], "hooks": hs} for k, hs in spec], "body": body, "status": status,
                     "nosend": nosend, "retxml": retxml, "faults": faults, "raise_at": raise_at}
@@ -165,8 +173,9 @@ def run(ctx):
             ctx.fail("hook calls differ from the documented order/once-per-stage rule", meta, real_log, full)
             continue
         if expected_boom is not None:
-            if outcome[0] not in ("boom", "ctor-boom") or outcome[1] != expected_boom:
-                ctx.fail("an exception raised by a hook did not reach the caller", meta, outcome[:2], expected_boom)
+            if outcome[0] not in ("boom", "ctor-boom") or outcome[1] != expected_boom or outcome[2] != ra[2]:
+                ctx.fail("an exception raised by a hook did not reach the caller unchanged", meta,
+                         [str(x)[:60] for x in outcome[:3]], [expected_boom, ra[2]])
             continue
         # data flow
         inv = ans["invoke"]
